@@ -22,7 +22,7 @@ TBoot == /\ Is("Boot")
          \* the boot itself is an obligation: everybody probed healthy and listed
          /\ \A e \in DOMAIN E.kind : status'[e] = "healthy"
          /\ known' = lists'
-         /\ req' = NoReq /\ act' = "Init" /\ Consume
+         /\ req' = NoReq /\ act' = "Init" /\ cnt' = [e \in EP |-> [ok |-> 0, fail |-> 0]] /\ Consume
 TUp     == Is("Up") /\ SetUp(E.e, E.b) /\ Consume
 TRelist == Is("Relist") /\ Relist(E.e, SetOf(E.S)) /\ Consume
 THealth == /\ Is("Health") /\ Health
@@ -37,11 +37,15 @@ TDone   == /\ Is("Done") /\ Answer
            /\ Consume
 \* the repository after the request: exactly the refusing candidates that were tried are offline now
 TRepo   == /\ Is("Repo") /\ Idle /\ \A e \in DOMAIN E.status : E.status[e] = status[e]
+           \* ... and the statistics have booked every attempt once, gauges back at zero
+           /\ \A e \in DOMAIN E.status : IF InDom(E.stats, e)
+                                          THEN E.stats[e].ok = cnt[e].ok /\ E.stats[e].fail = cnt[e].fail /\ E.stats[e].gauge = 0
+                                          ELSE cnt[e].ok = 0 /\ cnt[e].fail = 0
            /\ UNCHANGED vars /\ l' = l + 1
 
 TraceInit == /\ kind = [e \in EP |-> CHOOSE k \in Kinds : TRUE] /\ up = [e \in EP |-> "up"]
              /\ lists = [e \in EP |-> {}] /\ status = [e \in EP |-> "healthy"] /\ known = [e \in EP |-> {}]
-             /\ req = NoReq /\ act = "Init" /\ scn = <<>> /\ l = 1
+             /\ req = NoReq /\ act = "Init" /\ cnt = [e \in EP |-> [ok |-> 0, fail |-> 0]] /\ scn = <<>> /\ l = 1
 TraceNext == TBoot \/ TUp \/ TRelist \/ THealth \/ TReq \/ TRecv \/ TSilent \/ TDone \/ TRepo
 TraceSpec == TraceInit /\ [][TraceNext]_tvars
 HW == HWMark(l)
